@@ -3,12 +3,13 @@
 (* Stages!PossibleIntersectionOK.                                                          *)
 EXTENDS Stages, Json, IOUtils
 Recs == ndJsonDeserialize(IOEnv.TRACEFILE)
+AxisPar(s) == s[1][1] = s[2][1] \/ s[1][2] = s[2][2]
 VARIABLES i, bad
 vars == <<i, bad>>
 Init == i \in 1..Len(Recs) /\ bad = FALSE
 Judge == /\ i # 0 /\ i' = 0
          /\ LET r == Recs[i] IN
-            /\ bad' = ~(PossibleIntersectionOK(r, FALSE) /\ r.inbox)
+            /\ bad' = ~(PossibleIntersectionOK(r, AxisPar(r.a) /\ AxisPar(r.b)) /\ r.inbox)
             /\ bad' => PrintT(<<"PIFAIL", r.id>>)
 Done == i = 0 /\ UNCHANGED vars
 Next == Judge \/ Done
